@@ -146,7 +146,8 @@ def run(chk):
     from collections import Counter
     stats = Counter()
     chk.cov["rule"] = ("kernel metadata specs: corpus, then the systematic family mesh property x reference-element property "
-                       "subsets (43 kernels), then seeded random mostly-valid metadata (general-purpose "
+                       "subsets (43 kernels), the CMA family (to/from pairs incl. every pair of space names where one is a substring of "
+                       "the other, both directions, x assembly/apply/matrix-matrix) and the confusable-names family, then seeded random mostly-valid metadata (general-purpose "
                        "kernels with fields/vectors/operators/scalars/stencils/basis x shapes/reference-element/"
                        "mesh properties, CMA assembly/apply/matrix-matrix, inter-grid, domain, boundary-condition "
                        "kernels) plus a malformed stream; non-trivial = PSy layer generated and >= 2 metadata "
@@ -171,6 +172,8 @@ def run(chk):
     nbad = 60 if chk.tier == "thorough" else 8
     cases = [("corpus", md) for md in corpus()]
     cases += [("systematic", md) for md in G.systematic_family()]
+    cases += [("systematic-cma", md) for md in G.cma_family()]
+    cases += [("systematic-names", md) for md in G.confusable_family()]
     cases += [("valid", G.gen_valid(chk.rng)) for _ in range(ncases)]
     cases += [("malformed", G.gen_malformed(chk.rng)) for _ in range(nbad)]
     results = [R.run_real(md) for _, md in cases]
@@ -183,7 +186,7 @@ def run(chk):
     found = False
     for (stream, md), res, mo in zip(cases, results, model):
         stats["stream:" + stream] += 1
-        stats["kernel:" + md["name"]] += 1
+        stats["kernel:" + md["name"].rstrip("0123456789")] += 1
         stats["stub:" + ("yes" if res["stub"] is not None else "no")] += 1
         stats["call:" + ("yes" if res["call"] is not None else "no")] += 1
         if check_case(chk, md, res, mo, stream, stats):
